@@ -4,7 +4,7 @@ import I18n.Props.C19
 # C19 — the tie by translation: `lib/ling.py` REGENERATED from the source is the model the theorems of C19 are about
 
 `I18n.Generated.Ling` is rewritten from the repository's current `lib/ling.py` (class `Language`, `parse_language`, the two code look-ups)
-by `tools/translate/ling2lean.py` on every run.  The theorems below prove every regenerated definition equal, for ALL inputs, to the
+by `tools/translate/linglang2lean.py` on every run.  The theorems below prove every regenerated definition equal, for ALL inputs, to the
 hand-written model (`Locale.parseLanguageE`, `fixCodes`, `removeEncoding`, `removeNonlinguisticModifier`, `removePrincipalTerritory`,
 `isAlmostEqual`, `Language.str`, `lookupLanguage`, `lookupTerritory`) and restate the headline theorems of clauses 1 and 2 of C19 about the
 regenerated definitions.  Shared by both sides (trusted, see `DESIGN-notes/locale.md`): the scanner standing for `_language_regexp.match`
